@@ -181,6 +181,7 @@ Ltac perm_lists :=
 
 Lemma insAB_same_model : same_model insA insB.
 Proof. unfold same_model, insA, insB. cbn [s_nodes s_edges s_observed]. repeat split; perm_lists. Qed.
+Print Assumptions insAB_same_model.
 
 Example C02_generate_insertion_independent_example :
   wfsrc_b insA = true /\ outputs_wf_b insA ["d"%string] = true /\ params_distinct_b insA = true
